@@ -11,6 +11,9 @@ COMMON_TRUSTED = [
 
 # (file under coq/Gen, acra-vh arguments that print it): regenerated from /repo on every run
 GENERATORS = [
+    ("CensorKinds.v", ["censorkinds"]),
+    ("CensorPatterns.v", ["censorpatterns"]),
+    ("CensorWitness.v", ["censorwitness"]),
     ("TypedMysqlConsts.v", ["typedmy"]),
     ("KswConsts.v", ["kswconsts"]),
     ("TypedConsts.v", ["typed"]),
@@ -452,6 +455,10 @@ PROPS = {
         ]
     },
     "C05": {
+        "properties": [
+            "C05",
+            "C05_patterns"
+        ],
         "domains": [
             {
                 "name": "c05",
@@ -466,15 +473,24 @@ PROPS = {
                 "n_quick": 100,
                 "n_thorough": 1500,
                 "model": True
+            },
+            {
+                "name": "c05pat",
+                "run_vo": "Model/RunCensorPattern.vo",
+                "n_quick": 14,
+                "n_thorough": 150,
+                "model": True
             }
         ],
         "trusted": [
-            "modelled, not verified: the yacc SQL parser/normalizer (formatting invariance is checked differentially on the real AcraCensor only), the pattern relation over the 13 placeholders (per-handler exact-query/pattern match results are inputs of the chain model, computed by the real matchers; the table rule is evaluated by the model on the parsed FROM tree; oracle: a pattern obtained from a statement by generalising literals / the WHERE clause must match it)",
+            "modelled, not verified: the yacc SQL parser/normalizer (formatting invariance is checked differentially on the real AcraCensor only) and common.ParsePatterns (placeholder text replacement + parse): statements and parsed patterns enter the pattern model as the tree forms of their REAL ASTs, exported by reflection (harness/cmd/acra-vh/c05pat_tree.go; kinds/field names/placeholder statements regenerated into coq/Gen/Censor{Kinds,Patterns,Witness}.v)",
+            "pattern model (Model/CensorPattern.v): strings.EqualFold / strings.ToLower are modelled on ASCII (the generator keeps identifiers and keywords ASCII; non-ASCII only inside literals, which are compared byte-wise); the shape predicate wf (mandatory operands present, slice fields hold slices) is an assumption of the theorems that the replay checks on every exported tree; exact-query match results (CheckExactQueriesMatch: a map lookup) stay inputs of the chain model",
             "session model covers the simple query protocol ('Q'); extended protocol (Parse/Bind/Execute) and the MySQL proxy are not modelled",
             "in-process PostgreSQL rig (harness/vh/pgrig.go): net.Pipe pairs, scripted client and fake back end, read-start synchronisation on the proxy's database connection"
         ],
         "assumptions": [
-            "queue_aligned: the database answers the statements it received in order, one completion (CommandComplete/ErrorResponse) + ReadyForQuery per statement (simple protocol, single-statement queries)"
+            "queue_aligned: the database answers the statements it received in order, one completion (CommandComplete/ErrorResponse) + ReadyForQuery per statement (simple protocol, single-statement queries)",
+            "wf (C05_patterns): statement and pattern trees have the shape the sqlparser grammar produces (no nil where the grammar always puts an operand; SQLVal.unknown only under UnknownVal); validated on every tree the harness exports"
         ]
     },
     "C12": {
